@@ -2,6 +2,7 @@
  * dispatch event or reply from connection input
  */
 
+#include <stdlib.h>
 #include <string.h>
 
 #include <sys/types.h>
@@ -16,7 +17,7 @@
 extern int mpt_outdata_reply(MPT_STRUCT(outdata) *out, size_t len, const void *hdr, const MPT_STRUCT(message) *src)
 {
 	uint8_t tmp[0x100]; /* 256b reply limit */
-	uint8_t *ptr = tmp;
+	uint8_t *ptr = tmp, *alloc = 0;
 	int ret;
 	uint8_t ilen, slen;
 	uint16_t max;
@@ -47,17 +48,17 @@ extern int mpt_outdata_reply(MPT_STRUCT(outdata) *out, size_t len, const void *h
 		/* temporary reply limit exceeded */
 		if ((left = mpt_message_length(&msg))) {
 			size_t total = ilen + len + left;
-			/* use temporary data in unused buffer segment */
-			if (!(ptr = mpt_array_append(&out->buf, total, 0))) {
+			/* message may refer to received data in buffer, keep that in place */
+			if (!(ptr = alloc = malloc(total))) {
 				return MPT_ERROR(MissingBuffer);
 			}
-			out->buf._buf->_used -= total;
 			/* id and first content part are in local buffer */
 			memcpy(ptr, tmp, ilen + len);
 			len += mpt_message_read(&msg, left, ptr + ilen + len);
 		}
 	}
 	ret = sendto(out->sock._id, ptr, ilen + len, 0, hdr, slen);
+	free(alloc);
 	
 	if (ret < 0) {
 		return MPT_ERROR(BadOperation);
